@@ -795,6 +795,18 @@ fn lean_opd_tokens(rng: &mut Rng, depth: u32, out: &mut Vec<String>) {
         }
         return;
     }
+    const ESC: &[&str] = &["say \"hi\"", "a\\b", "\\", "\"", "c:\\dir\\", "tab\there", "x\\\"y", "\"\"", "a b", "", "\\\\ \"", "caf\u{e9} \"x\""];
+    if rng.chance(1, 7) {
+        if rng.chance(1, 2) {
+            out.push("pe".into());
+        } else {
+            out.push("fpe".into());
+            out.push(crate::model::hex(rng.pick(&["title", "body", "t", "stop"]).as_bytes()));
+        }
+        out.push(crate::model::hex(rng.pick(ESC).as_bytes()));
+        out.push(rng.pick(&["-", "-", "-", "*", "s1", "s30"]).to_string());
+        return;
+    }
     const SFX: &[&str] = &["*", "s0", "s1", "s2", "s10", "s007", "s4294967295", "-"];
     if rng.chance(1, 6) {
         if rng.chance(1, 2) {
